@@ -157,7 +157,7 @@ def check_tensor(c):
         res.skip('zero tensor')
         return res
     rmax = max(c['ranks'])
-    caps = list(range(1, rmax + 2)) + [1e12]
+    caps = list(range(1, rmax + 2)) + [1.5, 2.6, 3.999, 0.7][:4 if rmax >= 3 else 2] + [1e12]      # non-integer caps: every rank <= max(1, r), i.e. the cap is cut, not rounded
     es = thresholds(nrm, tl, d)
     cut = set()
     for eigh in (True, False):
